@@ -13,7 +13,7 @@ class ElementTetRT1(ElementHdiv):
     doflocs = np.array([[.5, .5, .0],
                         [.5, .0, .5],
                         [.0, .5, .5],
-                        [.5, .5, .5]])
+                        [1. / 3., 1. / 3., 1. / 3.]])
     refdom = RefTet
 
     def lbasis(self, X, i):
